@@ -22,6 +22,9 @@ func Main(args []string) int {
 		maxPaths := fs.Int("max-paths", 100000, "path limit")
 		verbose := fs.Bool("v", false, "verbose")
 		fs.Parse(args[1:])
+		if *verbose {
+			SlowQueryLog = func(secs float64, what string) { fmt.Fprintf(os.Stderr, "slow query %.1fs: %s\n", secs, what) }
+		}
 		P, err := LoadProgram(*harnessDir)
 		if err != nil {
 			fmt.Fprintln(os.Stderr, err)
